@@ -335,6 +335,15 @@ def shrink(mod, binpath, drvpath, case, kind):
 
 
 def run_check(prop, tier='quick', seed=None, replay=None):
+    try:
+        return _run_check(prop, tier, seed, replay)
+    finally:
+        if REPO != '/repo':
+            # a scratch-tree run regenerated lean/Ruint/Gen from that tree: restore the committed files
+            sh(['git', 'checkout', '--', 'lean/Ruint/Gen'], cwd=ROOT)
+
+
+def _run_check(prop, tier='quick', seed=None, replay=None):
     t0 = time.time()
     mod = importlib.import_module('props.' + prop.lower())
     seed = int(os.environ.get('VERIF_SEED', '20260926')) if seed is None else seed
